@@ -59,6 +59,23 @@ class C08(Check):
         if mism:
             rep['tie_broken'].append('vacancy-transfer constants: model and xrf_cross_sections_aux-private.c disagree on %d of %d lines; first: %s | impl %s | model %s' % (len(mism), len(lines), *mism[0]))
         self._const = dict(zip(lines, c))
+        # run-time tables = %.10E of the derivation functions: every cell xrf_cross_sections_constants_{full,auger_only}[Z][t][s] of the tables
+        # compiled into the library against what the real derivation function returns in the prdata process for (Z, s)
+        req = []; want = []
+        for l, a in zip(lines, c):
+            f, Z, s_ = l.split(); Z = int(Z); s_ = int(s_); t = SH.index(f[1:3])
+            if not (1 <= Z <= 120 and 0 <= s_ <= 3): continue
+            pa = core.parse_answer(a + ' E')
+            if pa['kind'] != 'ok': continue
+            tab = 'xrf_cross_sections_constants_' + ('auger_only' if 'auger_only' in f else 'full')
+            req.append('cell %s %d' % (tab, (Z * 9 + t) * 4 + s_)); want.append((l, pa['vals'][0]))
+        bad_cells = []
+        for r_, (l, v), g in zip(req, want, ctx.run_model(req)):
+            gv = unhx(g.split(' ')[1]); w = float('%.10E' % v)
+            if gv != w: bad_cells.append('%s = %r, %s returns %r (-> %r)' % (r_, gv, l, v, w))
+        ctx.notes.append('run-time constant tables vs derivation functions: %d cells, %d differ' % (len(req), len(bad_cells)))
+        ctx.coverage['constant_cells_checked'] = len(req)
+        if bad_cells: rep['tie_broken'].append('run-time vacancy-transfer constants are not the 11-digit print of the derivation functions: ' + '; '.join(bad_cells[:3]))
         # specification (name-derived lists) vs the real functions
         sl = []
         for l in lines:
@@ -107,14 +124,16 @@ class C08(Check):
         n = self.names(ctx)
         line_vals = sorted(set(v for k, v in n['lines'].items()))
         for Z in range(1 + off, 99, step):
-            for E in self.energies(ctx, Z):
+            Es_ = self.energies(ctx, Z)
+            for E in Es_:
                 for sh in range(-1, 11):
                     for v in list(VAR) + ['']:
                         for pre in ('CS', 'CSb'):
                             fn = '%s_FluorShell_Kissel%s' % (pre, '_' + v if v else '')
                             out.append('%s %d %d %s E' % (fn, Z, sh, hx(E)))
                     out.append('CS_Photo_Partial %d %d %s E' % (Z, sh, hx(E))); out.append('CSb_Photo_Partial %d %d %s E' % (Z, sh, hx(E)))
-                for ln in [0, 1, 2, 3, 4, -1, -2, -3, -5, -29, -30, -58, -59, -63, -85, -86, -89, -90, -95, -113, -114, -116, -118, -137, -150, -159, -181, -200, -219, -383, -384]:
+                base_ln = [0, 1, 2, 3, 4, -1, -2, -3, -5, -29, -30, -58, -59, -63, -85, -86, -89, -90, -95, -113, -114, -116, -118, -137, -150, -159, -181, -200, -219, -383, -384]
+                for ln in (list(range(4, -386, -1)) if ctx.tier == 'thorough' and E == Es_[len(Es_) // 2] else base_ln + ctx.rng.sample(range(-383, 0), 6)):
                     for v in list(VAR) + ['']:
                         for pre in ('CS', 'CSb'):
                             out.append('%s_FluorLine_Kissel%s %d %d %s E' % (pre, '_' + v if v else '', Z, ln, hx(E)))
@@ -239,10 +258,10 @@ class C08(Check):
         shellval = {}
         for l, o in zip(kl, ck):
             t = l.split()
-            if re.fullmatch(r'CS_FluorShell_Kissel(?:_(\w+))?', t[0]): shellval[(t[0].replace('Shell', 'Line'), t[1], int(t[2]), t[3])] = val(o)
+            if re.fullmatch(r'CSb?_FluorShell_Kissel(?:_(\w+))?', t[0]): shellval[(t[0].replace('Shell', 'Line'), t[1], int(t[2]), t[3])] = val(o)
         for l, o in zip(kl, ck):
             t = l.split()
-            if not re.fullmatch(r'CS_FluorLine_Kissel(?:_(\w+))?', t[0]): continue
+            if not re.fullmatch(r'CSb?_FluorLine_Kissel(?:_(\w+))?', t[0]): continue
             ln = int(t[2])
             if ln not in shell_of or shell_of[ln] > 8: continue
             sv = shellval.get((t[0], t[1], shell_of[ln], t[3]))
@@ -265,7 +284,7 @@ class C08(Check):
                    L['LB']: [L[k] for k in ('LB1', 'LB2', 'LB3', 'LB4', 'LB5', 'LB6', 'LB7', 'LB9', 'LB10', 'LB15', 'LB17', 'L3N6', 'L3N7')]}
         for l, o in zip(kl, ck):
             t = l.split()
-            if not re.fullmatch(r'CS_FluorLine_Kissel(?:_(\w+))?', t[0]): continue
+            if not re.fullmatch(r'CSb?_FluorLine_Kissel(?:_(\w+))?', t[0]): continue
             ln = int(t[2])
             if ln not in members: continue
             tot = 0.0; ok = True
@@ -290,6 +309,23 @@ class C08(Check):
                     viol.append(dict(key=l, got=o, expected='value %r = sum over the member lines of shell value x RadRate (same variant)' % tot, what='Kissel GROUP line cross section'))
             elif got not in (None,):
                 viol.append(dict(key=l, got=o, expected='fails (no member line has a cross section)', what='Kissel GROUP line cross section'))
+        # ordering: none <= radiative <= full and none <= non-radiative <= full; the un-suffixed functions are the full-cascade ones
+        byarg = {}
+        for l, o in zip(kl, ck):
+            t = l.split()
+            m = re.fullmatch(r'(CSb?_Fluor(?:Shell|Line)_Kissel)(?:_(\w+))?', t[0])
+            if m: byarg.setdefault((m.group(1), t[1], t[2], t[3]), {})[m.group(2) or ''] = (val(o), l, o)
+        for key_, d_ in byarg.items():
+            vs = {k: v[0] for k, v in d_.items()}
+            if any(v == 'bad' for v in vs.values()): continue
+            cnt += 1
+            num = {k: (v or 0.0) for k, v in vs.items()}
+            def le(a_, b_): return a_ in num and b_ in num and num[a_] <= num[b_] * (1 + 1e-12) + 1e-300
+            for a_, b_ in (('no_Cascade', 'Radiative_Cascade'), ('no_Cascade', 'Nonradiative_Cascade'), ('Radiative_Cascade', 'Cascade'), ('Nonradiative_Cascade', 'Cascade')):
+                if a_ in num and b_ in num and not le(a_, b_):
+                    viol.append(dict(key=d_[b_][1], got='%s = %r > %s = %r' % (a_, num[a_], b_, num[b_]), expected='%s <= %s' % (a_, b_), what='ordering of the cascade variants'))
+            if '' in vs and 'Cascade' in vs and vs[''] != vs['Cascade']:
+                viol.append(dict(key=d_[''][1], got=d_[''][2], expected='the value of the _Cascade variant: ' + d_['Cascade'][2], what='the un-suffixed function is the full-cascade one'))
         seen = set(); out = []
         for v in viol:
             if v['key'] in seen: continue
